@@ -3,7 +3,7 @@
     CAS-map specification, every logged reply is the specification's reply, every
     logged Put was hash- and length-verified.  All by induction over arbitrary
     schedules (with kills), for any number of processes and any programs. *)
-From stdpp Require Import gmap.
+From stdpp Require Import gmap sorting.
 From Copia Require Import Model.Hub.
 
 Section P.
@@ -216,6 +216,186 @@ Theorem run_trace_inv m0 sched : forall s, Inv m0 s ->
 Proof. induction sched as [|e rest IH]; intros s Hi; simpl; [constructor|].
   constructor; [exists (do_ev s e); split; [now apply do_ev_inv|reflexivity]|]. apply IH. now apply do_ev_inv. Qed.
 
+
+(** ** Real-time order: every logged operation takes effect between its invocation
+    and its response, and the log is ordered by (strictly increasing) time *)
+Definition ltime (e : pid * req * reply * nat) : nat := snd e.
+
+Definition started (c : @pc K D) : nat :=
+  match c with
+  | Staging _ _ _ t0 | Locked _ _ t0 | ReadCur _ _ _ t0 | Committed _ _ t0 => t0
+  | _ => 0
+  end.
+
+Record TInv (s : sys) : Prop := {
+  T_sorted : StronglySorted lt (map ltime (log s));
+  T_bound : Forall (fun e => ltime e < clock s) (log s);
+  T_sent : forall i q r rp t0 t1, procs s !! i = Some q -> In (r, rp, t0, t1) (sent q) ->
+             t0 <= t1 /\ t1 < clock s /\
+             (rp <> ErrRes -> exists t, In (i, r, rp, t) (log s) /\ t0 <= t /\ t <= t1);
+  T_pend : forall i q r rp t0, procs s !! i = Some q -> ppc q = Committed r rp t0 ->
+             exists t, In (i, r, rp, t) (log s) /\ t0 <= t;
+  T_start : forall i q, procs s !! i = Some q -> started (ppc q) <= clock s
+}.
+
+Lemma tinv_init m0 progs : TInv (init_sys m0 progs).
+Proof. constructor; simpl.
+  - constructor.
+  - constructor.
+  - intros i q r rp t0 t1 Hq. apply lookup_fmap_Some in Hq as (l & <- & _). simpl. intros [].
+  - intros i q r rp t0 Hq. apply lookup_fmap_Some in Hq as (l & <- & _). discriminate.
+  - intros i q Hq. apply lookup_fmap_Some in Hq as (l & <- & _). simpl. lia.
+Qed.
+
+Lemma sorted_snoc l t : StronglySorted lt l -> Forall (fun x => x < t) l -> StronglySorted lt (l ++ [t]).
+Proof. induction 1 as [|x l Hs IH Hx]; intros Hb; simpl.
+  - repeat constructor.
+  - inversion Hb; subst. constructor; [now apply IH|].
+    apply Forall_app. split; [assumption|]. repeat constructor. assumption. Qed.
+
+Lemma bound_mono (l : list (pid * req * reply * nat)) a b : a <= b ->
+  Forall (fun e => ltime e < a) l -> Forall (fun e => ltime e < b) l.
+Proof. intros Hab HF. eapply Forall_impl; [exact HF|]. intros e He. simpl in *. lia. Qed.
+
+(** the three shapes of a step: only the pc changes / log grows by one entry at the current time *)
+Lemma do_ev_tinv s e : TInv s -> TInv (do_ev s e).
+Proof.
+  intros [Ts Tb Tse Tp Tst].
+  destruct e as [i|i]; simpl.
+  2:{ (* kill *)
+    unfold kill. destruct (procs s !! i) as [q|] eqn:Eq.
+    - constructor; simpl.
+      + assumption.
+      + eapply bound_mono; [|exact Tb]. lia.
+      + intros j qj r rp t0 t1; other j i.
+        * intros [= <-]. simpl. intros Hin. destruct (Tse i q r rp t0 t1 Eq Hin) as (A & B & C). repeat split; auto; lia.
+        * intros Hj Hin. destruct (Tse j qj r rp t0 t1 Hj Hin) as (A & B & C). repeat split; auto; lia.
+      + intros j qj r rp t0; other j i; [intros [= <-]; discriminate|apply Tp].
+      + intros j qj; other j i; [intros [= <-]; simpl; lia|]. intros Hj. specialize (Tst j qj Hj). lia.
+    - constructor; simpl.
+      + assumption.
+      + eapply bound_mono; [|exact Tb]. lia.
+      + intros j qj r rp t0 t1 Hj Hin. destruct (Tse j qj r rp t0 t1 Hj Hin) as (A & B & C). repeat split; auto; lia.
+      + assumption.
+      + intros j qj Hj. specialize (Tst j qj Hj). lia. }
+  destruct (step s i) as [s'|] eqn:Hs.
+  2:{ constructor; simpl.
+      - assumption.
+      - eapply bound_mono; [|exact Tb]. lia.
+      - intros j qj r rp t0 t1 Hj Hin. destruct (Tse j qj r rp t0 t1 Hj Hin) as (A & B & C). repeat split; auto; lia.
+      - assumption.
+      - intros j qj Hj. specialize (Tst j qj Hj). lia. }
+  unfold Hub.step in Hs.
+  destruct (procs s !! i) as [q|] eqn:Eq; [|discriminate].
+  pose proof (Tst i q Eq) as Tsti.
+  assert (Hother_sent : forall j qj r rp t0 t1, j <> i -> procs s !! j = Some qj -> In (r, rp, t0, t1) (sent qj) ->
+            forall l', t0 <= t1 /\ t1 < S (clock s) /\ (rp <> ErrRes -> exists t, In (j, r, rp, t) (log s ++ l') /\ t0 <= t /\ t <= t1)).
+  { intros j qj r rp t0 t1 _ Hj Hin l'. destruct (Tse j qj r rp t0 t1 Hj Hin) as (A & B & C).
+    split; [assumption|]. split; [lia|]. intros Hne. destruct (C Hne) as (t & Hl & Ht). exists t. split; [apply in_or_app; now left|assumption]. }
+  assert (Hown_sent : forall r rp t0 t1, In (r, rp, t0, t1) (sent q) ->
+            forall l', t0 <= t1 /\ t1 < S (clock s) /\ (rp <> ErrRes -> exists t, In (i, r, rp, t) (log s ++ l') /\ t0 <= t /\ t <= t1)).
+  { intros r rp t0 t1 Hin l'. destruct (Tse i q r rp t0 t1 Eq Hin) as (A & B & C).
+    split; [assumption|]. split; [lia|]. intros Hne. destruct (C Hne) as (t & Hl & Ht). exists t. split; [apply in_or_app; now left|assumption]. }
+  assert (Hb' : Forall (fun e => ltime e < S (clock s)) (log s)) by (eapply bound_mono; [|exact Tb]; lia).
+  destruct (ppc q) as [|r cs acc t0|r c t0|r c cur t0|r rp t0|] eqn:Epc.
+  - (* Idle *)
+    destruct (todo q) as [|[p e d l ch|p e|p] rest]; [discriminate| | |].
+    + injection Hs as <-. constructor; simpl; auto.
+      * intros j qj r rp t0 t1; other j i; [intros [= <-]; simpl; intros Hin|intros Hj Hin].
+        -- specialize (Hown_sent r rp t0 t1 Hin []). now rewrite app_nil_r in Hown_sent.
+        -- specialize (Hother_sent j qj r rp t0 t1 ltac:(assumption) Hj Hin []). now rewrite app_nil_r in Hother_sent.
+      * intros j qj r rp t0; other j i; [intros [= <-]; discriminate|apply Tp].
+      * intros j qj; other j i; [intros [= <-]; simpl; lia|]. intros Hj. specialize (Tst j qj Hj). lia.
+    + destruct (lock s) as [h|]; [discriminate|]. injection Hs as <-. constructor; simpl; auto.
+      * intros j qj r rp t0 t1; other j i; [intros [= <-]; simpl; intros Hin|intros Hj Hin].
+        -- specialize (Hown_sent r rp t0 t1 Hin []). now rewrite app_nil_r in Hown_sent.
+        -- specialize (Hother_sent j qj r rp t0 t1 ltac:(assumption) Hj Hin []). now rewrite app_nil_r in Hother_sent.
+      * intros j qj r rp t0; other j i; [intros [= <-]; discriminate|apply Tp].
+      * intros j qj; other j i; [intros [= <-]; simpl; lia|]. intros Hj. specialize (Tst j qj Hj). lia.
+    + (* Get *)
+      injection Hs as <-. constructor; simpl.
+      * rewrite map_app. simpl. apply sorted_snoc; [assumption|]. rewrite Forall_map. exact Tb.
+      * apply Forall_app. split; [assumption|]. constructor; [simpl; lia|constructor].
+      * intros j qj r rp t0 t1; other j i; [intros [= <-]; simpl; intros Hin|intros Hj Hin].
+        -- apply in_app_or in Hin as [Hin|[[= <- <- <- <-]|[]]].
+           ++ apply (Hown_sent r rp t0 t1 Hin).
+           ++ repeat split; try lia. intros _. exists (clock s). split; [apply in_or_app; right; now left|lia].
+        -- apply (Hother_sent j qj r rp t0 t1 ltac:(assumption) Hj Hin).
+      * intros j qj r rp t0; other j i; [intros [= <-]; discriminate|].
+        intros Hj Hp. destruct (Tp j qj r rp t0 Hj Hp) as (t & Hl & Ht). exists t. split; [apply in_or_app; now left|assumption].
+      * intros j qj; other j i; [intros [= <-]; simpl; lia|]. intros Hj. specialize (Tst j qj Hj). lia.
+  - (* Staging *)
+    destruct cs as [|c cs].
+    + destruct r as [p e d l ch|p e|p]; [|discriminate|discriminate].
+      destruct (verified d l acc).
+      * destruct (lock s) as [h|]; [discriminate|]. injection Hs as <-. constructor; simpl; auto.
+        -- intros j qj r rp t0' t1; other j i; [intros [= <-]; simpl; intros Hin|intros Hj Hin].
+           ++ specialize (Hown_sent r rp t0' t1 Hin []). now rewrite app_nil_r in Hown_sent.
+           ++ specialize (Hother_sent j qj r rp t0' t1 ltac:(assumption) Hj Hin []). now rewrite app_nil_r in Hother_sent.
+        -- intros j qj r rp t0'; other j i; [intros [= <-]; discriminate|apply Tp].
+        -- intros j qj; other j i; [intros [= <-]; simpl in *; lia|]. intros Hj. specialize (Tst j qj Hj). lia.
+      * injection Hs as <-. constructor; simpl; auto.
+        -- intros j qj r rp t0' t1; other j i; [intros [= <-]; simpl; intros Hin|intros Hj Hin].
+           ++ apply in_app_or in Hin as [Hin|[[= <- <- <- <-]|[]]].
+              ** specialize (Hown_sent r rp t0' t1 Hin []). now rewrite app_nil_r in Hown_sent.
+              ** simpl in Tsti. repeat split; try lia. intros Hne; congruence.
+           ++ specialize (Hother_sent j qj r rp t0' t1 ltac:(assumption) Hj Hin []). now rewrite app_nil_r in Hother_sent.
+        -- intros j qj r rp t0'; other j i; [intros [= <-]; discriminate|apply Tp].
+        -- intros j qj; other j i; [intros [= <-]; simpl; lia|]. intros Hj. specialize (Tst j qj Hj). lia.
+    + injection Hs as <-. constructor; simpl; auto.
+      * intros j qj r' rp t0' t1; other j i; [intros [= <-]; simpl; intros Hin|intros Hj Hin].
+        -- specialize (Hown_sent r' rp t0' t1 Hin []). now rewrite app_nil_r in Hown_sent.
+        -- specialize (Hother_sent j qj r' rp t0' t1 ltac:(assumption) Hj Hin []). now rewrite app_nil_r in Hother_sent.
+      * intros j qj r' rp t0'; other j i; [intros [= <-]; discriminate|apply Tp].
+      * intros j qj; other j i; [intros [= <-]; simpl in *; lia|]. intros Hj. specialize (Tst j qj Hj). lia.
+  - (* Locked *)
+    injection Hs as <-. constructor; simpl; auto.
+    + intros j qj r' rp t0' t1; other j i; [intros [= <-]; simpl; intros Hin|intros Hj Hin].
+      * specialize (Hown_sent r' rp t0' t1 Hin []). now rewrite app_nil_r in Hown_sent.
+      * specialize (Hother_sent j qj r' rp t0' t1 ltac:(assumption) Hj Hin []). now rewrite app_nil_r in Hother_sent.
+    + intros j qj r' rp t0'; other j i; [intros [= <-]; discriminate|apply Tp].
+    + intros j qj; other j i; [intros [= <-]; simpl in *; lia|]. intros Hj. specialize (Tst j qj Hj). lia.
+  - (* ReadCur -> Committed: log grows *)
+    destruct (commit (live s) r c cur) as [m' rp] eqn:Em. injection Hs as <-. constructor; simpl.
+    + rewrite map_app. simpl. apply sorted_snoc; [assumption|]. rewrite Forall_map. exact Tb.
+    + apply Forall_app. split; [assumption|]. constructor; [simpl; lia|constructor].
+    + intros j qj r' rp' t0' t1; other j i; [intros [= <-]; simpl; intros Hin|intros Hj Hin].
+      * apply (Hown_sent r' rp' t0' t1 Hin).
+      * apply (Hother_sent j qj r' rp' t0' t1 ltac:(assumption) Hj Hin).
+    + intros j qj r' rp' t0'; other j i.
+      * intros [= <-]. simpl. intros [= <- <- <-]. exists (clock s). split; [apply in_or_app; right; now left|]. simpl in Tsti. lia.
+      * intros Hj Hp. destruct (Tp j qj r' rp' t0' Hj Hp) as (t & Hl & Ht). exists t. split; [apply in_or_app; now left|assumption].
+    + intros j qj; other j i; [intros [= <-]; simpl in *; lia|]. intros Hj. specialize (Tst j qj Hj). lia.
+  - (* Committed -> reply *)
+    injection Hs as <-. constructor; simpl; auto.
+    + intros j qj r' rp' t0' t1; other j i; [intros [= <-]; simpl; intros Hin|intros Hj Hin].
+      * apply in_app_or in Hin as [Hin|[[= <- <- <- <-]|[]]].
+        -- specialize (Hown_sent r' rp' t0' t1 Hin []). now rewrite app_nil_r in Hown_sent.
+        -- destruct (Tp i q r rp t0 Eq Epc) as (t & Hl & Ht).
+           rewrite Forall_forall in Tb. pose proof (Tb _ (proj2 (elem_of_list_In _ _) Hl)) as Hlt. simpl in Hlt.
+           simpl in Tsti. repeat split; try lia. intros _. exists t. repeat split; auto; lia.
+      * specialize (Hother_sent j qj r' rp' t0' t1 ltac:(assumption) Hj Hin []). now rewrite app_nil_r in Hother_sent.
+    + intros j qj r' rp' t0'; other j i; [intros [= <-]; discriminate|apply Tp].
+    + intros j qj; other j i; [intros [= <-]; simpl; lia|]. intros Hj. specialize (Tst j qj Hj). lia.
+  - discriminate.
+Qed.
+
+Theorem run_tinv sched : forall s, TInv s -> TInv (run s sched).
+Proof. induction sched as [|e rest IH]; intros s Hi; simpl; [assumption|]. apply IH. now apply do_ev_tinv. Qed.
+
+(** non-overlapping logged operations keep their real-time order in the log *)
+Theorem realtime_order s : TInv s ->
+  forall i qi j qj rA rpA a0 a1 rB rpB b0 b1,
+  procs s !! i = Some qi -> procs s !! j = Some qj ->
+  In (rA, rpA, a0, a1) (sent qi) -> In (rB, rpB, b0, b1) (sent qj) ->
+  rpA <> ErrRes -> rpB <> ErrRes -> a1 < b0 ->
+  exists tA tB, In (i, rA, rpA, tA) (log s) /\ In (j, rB, rpB, tB) (log s) /\
+                a0 <= tA /\ tA <= a1 /\ b0 <= tB /\ tB <= b1 /\ tA < tB.
+Proof. intros [_ _ Tse _ _] i qi j qj rA rpA a0 a1 rB rpB b0 b1 Hi Hj HA HB HnA HnB Hlt.
+  destruct (Tse i qi rA rpA a0 a1 Hi HA) as (_ & _ & CA). destruct (CA HnA) as (tA & HlA & ? & ?).
+  destruct (Tse j qj rB rpB b0 b1 Hj HB) as (_ & _ & CB). destruct (CB HnB) as (tB & HlB & ? & ?).
+  exists tA, tB. repeat split; auto; lia. Qed.
+
 (** ** Consequences about the specification's replay (C03 / C10 corollaries) *)
 
 (** where a content in the replayed map comes from *)
@@ -244,6 +424,94 @@ Proof. intros [_ _ _ _ Ig _ Iv] p c Hp. rewrite Ig in Hp.
   rewrite Forall_forall in Iv. apply elem_of_list_In in Hin. specialize (Iv _ Hin). simpl in Iv.
   unfold Hub.verified in Iv. apply andb_prop in Iv as [H1 H2].
   apply bool_decide_eq_true in H1, H2. auto. Qed.
+
+
+(** ** every request the system ever works on comes from the clients' programs *)
+Definition allreqs (progs : gmap pid (list req)) (r : req) : Prop :=
+  exists i l, progs !! i = Some l /\ In r l.
+
+Definition cur_req (c : @pc K D) : option req :=
+  match c with
+  | Staging r _ _ _ | Locked r _ _ | ReadCur r _ _ _ | Committed r _ _ => Some r
+  | _ => None
+  end.
+
+Record RInv (progs : gmap pid (list req)) (s : sys) : Prop := {
+  R_todo : forall i q r, procs s !! i = Some q -> In r (todo q) -> allreqs progs r;
+  R_cur : forall i q r, procs s !! i = Some q -> cur_req (ppc q) = Some r -> allreqs progs r;
+  R_log : Forall (fun e => allreqs progs (snd (fst (fst e)))) (log s)
+}.
+
+Lemma rinv_init m0 progs : RInv progs (init_sys m0 progs).
+Proof. constructor; simpl.
+  - intros i q r Hq. apply lookup_fmap_Some in Hq as (l & <- & Hl). simpl. intros Hin. exists i, l. auto.
+  - intros i q r Hq. apply lookup_fmap_Some in Hq as (l & <- & Hl). discriminate.
+  - constructor. Qed.
+
+Lemma do_ev_rinv progs s e : RInv progs s -> RInv progs (do_ev s e).
+Proof.
+  intros [Rt Rc Rl]. destruct e as [i|i]; simpl.
+  2:{ unfold kill. destruct (procs s !! i) as [q|] eqn:Eq; [|constructor; auto].
+      constructor; simpl; auto.
+      - intros j qj r; other j i; [intros [= <-]; simpl; intros []|apply Rt].
+      - intros j qj r; other j i; [intros [= <-]; discriminate|apply Rc]. }
+  destruct (step s i) as [s'|] eqn:Hs; [|constructor; auto].
+  unfold Hub.step in Hs.
+  destruct (procs s !! i) as [q|] eqn:Eq; [|discriminate].
+  pose proof (Rt i q) as Rti. pose proof (Rc i q) as Rci.
+  destruct (ppc q) as [|r cs acc t0|r c t0|r c cur t0|r rp t0|] eqn:Epc.
+  - destruct (todo q) as [|[p e d l ch|p e|p] rest] eqn:Et; [discriminate| | |].
+    + injection Hs as <-. constructor; simpl; auto.
+      * intros j qj r; other j i; [intros [= <-]; simpl; intros Hin; apply (Rti r Eq); now right|apply Rt].
+      * intros j qj r; other j i; [intros [= <-]; simpl; intros [= <-]; apply (Rti _ Eq); now left|apply Rc].
+    + destruct (lock s); [discriminate|]. injection Hs as <-. constructor; simpl; auto.
+      * intros j qj r; other j i; [intros [= <-]; simpl; intros Hin; apply (Rti r Eq); now right|apply Rt].
+      * intros j qj r; other j i; [intros [= <-]; simpl; intros [= <-]; apply (Rti _ Eq); now left|apply Rc].
+    + injection Hs as <-. constructor; simpl; auto.
+      * intros j qj r; other j i; [intros [= <-]; simpl; intros Hin; apply (Rti r Eq); now right|apply Rt].
+      * intros j qj r; other j i; [intros [= <-]; discriminate|apply Rc].
+      * apply Forall_app. split; [assumption|]. constructor; [|constructor]. simpl. apply (Rti _ Eq). now left.
+  - destruct cs as [|c cs].
+    + destruct r as [p e d l ch|p e|p]; [|discriminate|discriminate].
+      destruct (verified d l acc).
+      * destruct (lock s); [discriminate|]. injection Hs as <-. constructor; simpl; auto.
+        -- intros j qj r; other j i; [intros [= <-]; simpl; apply (Rti r Eq)|apply Rt].
+        -- intros j qj r; other j i; [intros [= <-]; simpl; intros [= <-]; now apply (Rci _ Eq)|apply Rc].
+      * injection Hs as <-. constructor; simpl; auto.
+        -- intros j qj r; other j i; [intros [= <-]; simpl; apply (Rti r Eq)|apply Rt].
+        -- intros j qj r; other j i; [intros [= <-]; discriminate|apply Rc].
+    + injection Hs as <-. constructor; simpl; auto.
+      * intros j qj r'; other j i; [intros [= <-]; simpl; apply (Rti r' Eq)|apply Rt].
+      * intros j qj r'; other j i; [intros [= <-]; simpl; intros [= <-]; now apply (Rci _ Eq)|apply Rc].
+  - injection Hs as <-. constructor; simpl; auto.
+    + intros j qj r'; other j i; [intros [= <-]; simpl; apply (Rti r' Eq)|apply Rt].
+    + intros j qj r'; other j i; [intros [= <-]; simpl; intros [= <-]; now apply (Rci _ Eq)|apply Rc].
+  - destruct (commit (live s) r c cur) as [m' rp] eqn:Em. injection Hs as <-. constructor; simpl; auto.
+    + intros j qj r'; other j i; [intros [= <-]; simpl; apply (Rti r' Eq)|apply Rt].
+    + intros j qj r'; other j i; [intros [= <-]; simpl; intros [= <-]; now apply (Rci _ Eq)|apply Rc].
+    + apply Forall_app. split; [assumption|]. constructor; [|constructor]. simpl. now apply (Rci _ Eq).
+  - injection Hs as <-. constructor; simpl; auto.
+    + intros j qj r'; other j i; [intros [= <-]; simpl; apply (Rti r' Eq)|apply Rt].
+    + intros j qj r'; other j i; [intros [= <-]; discriminate|apply Rc].
+  - discriminate.
+Qed.
+
+(** C10 in closed form: at every instant of every schedule (kills included) each live
+    content is an initial content or the complete body of ONE Put of the clients'
+    programs whose bytes match its declared hash and length. *)
+Definition good_content (m0 : gmap K content) (progs : gmap pid (list req)) (c : content) : Prop :=
+  (exists p0, m0 !! p0 = Some c) \/
+  (exists q e d len ch, allreqs progs (Put q e d len ch) /\ c = body ch /\ Hh c = d /\ Z.of_nat (length c) = len).
+
+Theorem all_snapshots_verified m0 progs sched : forall s, Inv m0 s -> RInv progs s ->
+  Forall (fun m => forall p c, m !! p = Some c -> good_content m0 progs c) (run_trace Hh cname s sched).
+Proof. induction sched as [|e rest IH]; intros s Hi Hr; simpl; [constructor|].
+  assert (Hi' := do_ev_inv m0 s e Hi). assert (Hr' := do_ev_rinv progs s e Hr).
+  constructor; [|now apply IH].
+  intros p c Hp. destruct (live_paths_verified m0 _ Hi' p c Hp) as [?|(i & q & e' & d & len & ch & rp & t & Hin & -> & Hd & Hl)]; [now left|right].
+  exists q, e', d, len, ch. split; [|auto].
+  destruct Hr' as [_ _ Rl]. rewrite Forall_forall in Rl. apply elem_of_list_In in Hin. specialize (Rl _ Hin). exact Rl.
+Qed.
 
 (** a path's content only changes by a logged operation that targets it (as its
     path, or as the conflict name of an uncommitted Put) *)
